@@ -4,7 +4,7 @@
              compute_shuffled_index (position by position), the inverse law and the
              permutation property; independent of the Impl model. *)
 From Coq Require Import NArith List Bool Sorting.Mergesort Orders.
-From V Require Import Base.U64 Base.Outcome Base.Sha256 Shuffle.ShuffleModel.
+From V Require Import Base.U64 Base.Outcome Base.Sha256 Shuffle.ShuffleModel Shuffle.ShuffleSpecTab.
 Import ListNotations.
 Local Open Scope N_scope.
 
@@ -82,11 +82,11 @@ Definition max_count : N := 1099511627776. (* 2^40 = VALIDATOR_REGISTRY_LIMIT *)
 Definition spec_index (h : hsel) (seed : list N) (rounds n i : N) : option N :=
   compute_shuffled_index (hash_of h) seed rounds i n.
 
-(* every position i < n : spec i defined, in range, and rel i (spec i) holds *)
+(* every position i < n : spec i defined, in range, and rel i (spec i) holds.
+   ShuffleSpecTab.all_positions shares the hash tables between positions and is PROVED equal
+   (all_positions_spec) to evaluating compute_shuffled_index at every position. *)
 Definition all_positions (h : hsel) (seed : list N) (rounds : N) (n : nat) (rel : N -> N -> bool) : bool :=
-  forallb (fun i => match spec_index h seed rounds (N.of_nat n) (N.of_nat i) with
-                    | Some s => (s <? N.of_nat n) && rel (N.of_nat i) s
-                    | None => false end) (seq 0 n).
+  ShuffleSpecTab.all_positions (hash_of h) seed rounds n rel.
 Definition at_ (l : list N) (i : N) : option N := nth_error l (N.to_nat i).
 Definition opt_eqb (a b : option N) : bool :=
   match a, b with Some x, Some y => x =? y | _, _ => false end.
